@@ -717,8 +717,16 @@ def m_bank( ctx ):
     src = ctx.src( MODBUS )
     fn = src.get( 'merge' )
     srt = [ n for n in ast.walk( fn ) if is_call_to( n, 'sorted' ) ]
+    RANGES = fn.args.args[0].arg
     if srt:
-        res.ok( src, srt[0], 'ranges swept in sorted order' )
+        a = srt[0].args[0] if srt[0].args else None
+        inner = a.args[0] if isinstance( a, ast.Call ) and call_name( a ) in ( 'list', 'tuple' ) and len( a.args ) == 1 else a
+        if dotted( inner ) == RANGES and not any( k.arg == 'reverse' and try_fold( k.value ) for k in srt[0].keywords ):
+            res.ok( src, srt[0], 'all requested ranges are swept, in sorted order' )
+        elif isinstance( a, ast.Call ) and call_name( a ) in ( 'dict', 'dict.items' ) or ( isinstance( a, ast.Call ) and isinstance( a.func, ast.Attribute ) and a.func.attr == 'items' ):
+            res.bad( src, srt[0], srt[0], 'the ranges pass through a dict keyed by start address before the sweep: of several requests with the same start only the last count survives, so the registers of a longer one are dropped from the output' )
+        else:
+            raise AnalysisError( 'merge: the sorted sweep is not over the ranges argument itself: %s' % norm_text( srt[0] ))
     else:
         res.bad( src, fn, 'merge', 'ranges must be sorted before the sweep' )
     merges = [ n for n in ast.walk( fn ) if isinstance( n, ast.If ) and n.body and isinstance( n.body[-1], ast.Continue ) ]
